@@ -74,7 +74,9 @@ class TailCallOptimization(FunctionPass):
         """Replace tail calls by jumps to the old entry of this function."""
         z = []
         z.append((function.entry, function.arguments))
-        new_entry = ir.Block("new_entry")
+        # Block names end up as labels in the object file, so the name must
+        # not clash with the new entry block of another function:
+        new_entry = ir.Block(f"{function.name}_new_entry")
         function.add_block(new_entry)
         function.blocks.insert(0, function.blocks.pop())
         old_entry = function.entry
